@@ -219,6 +219,22 @@ ForwardedLoop(env) ==
   IF Dev(env, "ForLoopLeaksIntoIsolated") /\ I # {}
   THEN << env.rvars[CHOOSE i \in I : \A j \in I : j <= i] >> ELSE <<>>
 
+\* Component hooks.  comps[c].hook (optional) = [bx, bv, after]:
+\*   on_render_before(context, template): "runs just before the component's template is rendered. You can
+\*     use this hook to access or modify the context" - modelled: context[bx] = bv  (bx = "": no write)
+\*   on_render_after(context, template, content): "receives the rendered output as the last argument. To
+\*     override the content that gets rendered, you can return a string" - after \in
+\*     "none" (returns None), "same" (returns content), "wrap" (returns [A<c>] content [/A<c>]),
+\*     "replace" (returns the constant [R<c>]: the component's own output, its children's included, is gone;
+\*     the children WERE rendered - they stay in insts - and an error inside them still surfaces).
+NoHook == [bx |-> "", bv |-> "", after |-> "none"]
+HookOf(def) == IF "hook" \in DOMAIN def THEN def.hook ELSE NoHook
+After(hook, c, r) ==
+  IF r.err # "" \/ r.zone THEN r
+  ELSE CASE hook.after = "wrap"    -> [r EXCEPT !.out = <<"A" \o ToString(c)>> \o @ \o <<"/A" \o ToString(c)>>]
+         [] hook.after = "replace" -> [r EXCEPT !.out = <<"R" \o ToString(c)>>, !.tops = <<>>, !.elems = <<>>, !.marks = <<>>]
+         [] OTHER                  -> r
+
 EvalComp(n, env, fuel) ==
   IF fuel = 0 THEN Fail("fuel") ELSE
   LET inst  == env.at
@@ -236,7 +252,10 @@ EvalComp(n, env, fuel) ==
       \* which render queue the new instance joins: its context names a parent component -> the
       \* parent's root; otherwise it is a root of its own
       root  == IF env.ckey THEN env.croot ELSE inst
-      data  == Layer("data", inst, cd.b)
+      \* Hooks (optional field): on_render_before may modify the context ("context[bx] = bv": the name is set
+      \* in the component's own layer and wins over get_context_data); see After below for on_render_after
+      hook  == HookOf(def)
+      data  == Layer("data", inst, cd.b \o (IF hook.bx # "" THEN << <<hook.bx, Str(hook.bv)>> >> ELSE <<>>))
       \* what the callee sees of the caller (see DynamicUsesLiveContext)
       live  == Dev(env, "DynamicUsesLiveContext") /\ env.P.dyn /\ ~env.immediate
       cvars == IF live THEN env.perm ELSE env.vars
@@ -258,7 +277,7 @@ EvalComp(n, env, fuel) ==
   IN IF n.body = "fills" /\ ~NoDupNames(fills) THEN Fail("TemplateSyntaxError")   \* documented: duplicate fill names
      ELSE IF cd.err # "" THEN Fail(cd.err)
      ELSE IF Dev(env, "NestedRootCallbackKeyError") /\ env.ckey /\ env.croot # env.queue THEN Fail("KeyError")
-     ELSE LET r == Join(Res(<<>>, "", FALSE, << <<inst, n.c>> >>), EvalSeq(def.tpl, 1, env2, fuel - 1)) IN
+     ELSE LET r == After(hook, n.c, Join(Res(<<>>, "", FALSE, << <<inst, n.c>> >>), EvalSeq(def.tpl, 1, env2, fuel - 1))) IN
           \* C14: every element at depth 0 of the instance's output is one of its root elements
           [r EXCEPT !.marks = @ \o [k \in 1..Len(r.tops) |-> <<r.tops[k], ToString(inst)>>]]
 
